@@ -128,8 +128,10 @@ class Topo:
             self.ups[d].append(u)
         elif k == "disconnect":
             u, d = op["up"], op["down"]
-            self.downs[u].remove(d)
-            self.ups[d].remove(u)
+            if d in self.downs[u]:       # (an implementation that accepts the disconnect of an absent edge is judged by the oracle, not here)
+                self.downs[u].remove(d)
+            if u in self.ups[d]:
+                self.ups[d].remove(u)
         elif k == "destroy" and "streams" in op:
             d = op["node"]
             for u in op["streams"]:
